@@ -24,7 +24,7 @@ type mergeCase struct {
 	U        rig.UniverseSpec `json:"universe"`
 	Perm     []int            `json:"perm"`
 	Sanitize bool             `json:"sanitize"`
-	Edit     string           `json:"edit,omitempty"`  // C05: conflict edit kind ("" = mergeable)
+	Edit     string           `json:"edit,omitempty"` // C05: conflict edit kind ("" = mergeable)
 	EditAt   []int            `json:"edit_at,omitempty"`
 	UIdx     int              `json:"universe_index"`
 }
